@@ -2,6 +2,7 @@ package bcai
 
 import (
 	"fmt"
+	"os"
 	"strings"
 
 	"calcsa/absint"
@@ -76,11 +77,23 @@ func (e *eng) extra(pa *pathRec, method, pos string, rep func(rule, what, detail
 	}
 	// B6: a condition is consumed by a conditional jump of the right polarity
 	for _, c := range pa.calls {
+		// the condition itself, or what is left of it after the compiler peeled
+		// negations off: count the '!' nodes between the node's Condition field
+		// and the subtree that is compiled
 		isCond := strings.HasSuffix(c.field, ".Condition")
-		folded := false
-		if c.field == "UnOp.Target" && (tn == "If" || tn == "IfElse" || tn == "While") {
-			isCond, folded = true, true
+		negs := 0
+		for a := c.ref; a != nil && a.parent != nil; a = a.parent {
+			if a.parent.chosen == "UnOp" && a.parent.op == "!" && a.field == "UnOp.Target" {
+				negs++
+				if a.parent.parent == nil && strings.HasSuffix(a.parent.field, ".Condition") {
+					isCond = true
+				}
+			} else {
+				isCond = false
+				break
+			}
 		}
+		folded := negs%2 == 1
 		if !isCond || c.item+1 > len(items) {
 			continue
 		}
@@ -118,11 +131,15 @@ func (e *eng) extra(pa *pathRec, method, pos string, rep func(rule, what, detail
 		}
 		if want != "" && name != want {
 			neg := ""
-			if folded {
-				neg = " (the condition was '!' of this operand)"
+			if negs > 0 {
+				neg = fmt.Sprintf(" (the compiler removed %d '!' from the condition)", negs)
 			}
 			rep("B6", "jump polarity", fmt.Sprintf("a %s jump on %s%s must be %s, the compiler emits %s: the branch is taken on the wrong truth value", map[int]string{1: "forward (skip)", -1: "backward (repeat)"}[dir], c.field, neg, want, name))
 		}
+	}
+	// B11: an assignment may skip computing its value only for "v = v + 1" / "v = 1 + v"
+	if tn == "Assign" {
+		e.incShortcut(pa, opName, rep)
 	}
 	// B7: debug info is keyed by the position of the CALL
 	for i, it := range items {
@@ -315,4 +332,73 @@ func normLin(s string) string {
 		return s[1 : len(s)-1]
 	}
 	return s
+}
+
+// incShortcut (B11): the only assignment that may be compiled without
+// evaluating its right-hand side is the increment of the assigned variable by
+// the integer literal 1: the path must have established that the value is a
+// "+", that one operand is the Int literal 1 and that the other operand is the
+// same tree as the target, and the INC must operate on the target.
+func (e *eng) incShortcut(pa *pathRec, opName func(int) string, rep func(rule, what, detail string)) {
+	if os.Getenv("CALCSA_DUMP_FACTS") != "" {
+		fmt.Printf("== Assign path %s: calls=%v facts=%v\n", pa.key, func() (o []string) {
+			for _, c := range pa.calls {
+				o = append(o, c.field)
+			}
+			return
+		}(), pa.facts)
+	}
+	for _, c := range pa.calls {
+		if c.field == "Assign.Value" {
+			return
+		}
+	}
+	has := func(f string) bool {
+		for _, x := range pa.facts {
+			if x == f {
+				return true
+			}
+		}
+		return false
+	}
+	var why []string
+	if !has("type Assign.Value=BinOp") || !has("op Assign.Value=+") {
+		why = append(why, "the value is not known to be an addition")
+	}
+	one := func(side string) bool {
+		if !has("type BinOp." + side + "=Int") {
+			return false
+		}
+		for _, x := range pa.facts {
+			if x == "cond ==(BinOp."+side+":Int.value,1)=true" {
+				return true
+			}
+		}
+		return false
+	}
+	same := func(side string) bool { return has("same Assign.VarRef,BinOp." + side + "=true") }
+	if !(one("Right") && same("Left")) && !(one("Left") && same("Right")) {
+		why = append(why, "it is not established that one operand is the integer literal 1 and the other operand is the very variable reference that is assigned (same resolved node: same kind of variable, same slot)")
+	}
+	n := 0
+	for i, c := range pa.calls {
+		if c.field != "Assign.VarRef" {
+			why = append(why, "the shortcut compiles "+c.field+" instead of the assignment target")
+			continue
+		}
+		n++
+		j := c.item + 1
+		if opName(j) != "INC" {
+			why = append(why, fmt.Sprintf("the target's code is followed by %q, not INC", opName(j)))
+		} else if ck, _ := absint.ConstInt(pa.items[j].ins.k[0]); ck != pa.items[c.item].child.Kind {
+			why = append(why, "INC does not operate on the operand the target was compiled to")
+		}
+		_ = i
+	}
+	if n != 1 {
+		why = append(why, fmt.Sprintf("the target is compiled %d times", n))
+	}
+	if len(why) > 0 {
+		rep("B11", "value of an assignment is computed", "the assignment is compiled without evaluating its right-hand side; that is only the same as evaluating it when the statement is v = v + 1 or v = 1 + v for the same variable v and the integer literal 1 (INC v): "+strings.Join(why, "; ")+fmt.Sprintf(" [facts on this path: %s]", strings.Join(pa.facts, "; ")))
+	}
 }
